@@ -271,7 +271,55 @@ func (g *Gen) script(ci int, self common.Address, maxInit int, isInit bool) Scri
 			s = append(s, Act{Kind: "c", To: callee(), Val: big.NewInt(0)})
 		}
 	}
-	return s
+	return g.repeatCalls(self, s)
+}
+
+// repeatCalls: with some probability call a callee of the script a second (third) time, with value on
+// the later call, so that whatever the callee did the first time (SELFDESTRUCT in particular) is done again
+// on a balance that arrived in between.
+func (g *Gen) repeatCalls(self common.Address, s Script) Script {
+	if !g.r.Chance(2, 5) {
+		return s
+	}
+	var idx []int
+	for i, a := range s {
+		if a.Kind == "c" || a.Kind == "ac" {
+			idx = append(idx, i)
+		}
+	}
+	if len(idx) == 0 {
+		return s
+	}
+	i := idx[g.r.Intn(len(idx))]
+	times := g.r.Pick(1, 1, 2)
+	out := append(Script{}, s[:i+1]...)
+	for t := 0; t < times; t++ {
+		v := []*big.Int{big.NewInt(1), rpg(1), new(big.Int).Div(g.w.adb.GetBalance(self), big.NewInt(3)), big.NewInt(0)}[g.r.Intn(4)]
+		out = append(out, Act{Kind: "c", To: s[i].To, Val: v})
+	}
+	out = append(out, s[i+1:]...)
+	return out
+}
+
+// bomb: a contract that (after at most one other action) self-destructs; beneficiary is another account,
+// itself, a contract that calls it, or an unfunded address.
+func (g *Gen) bomb(ci int, self common.Address) Script {
+	var s Script
+	if g.r.Chance(1, 3) {
+		s = append(s, Act{Kind: "c", To: g.pickEOA(), Val: g.smallValue(self)})
+	}
+	var ben common.Address
+	switch g.r.Intn(5) {
+	case 0, 1:
+		ben = self
+	case 2:
+		ben = contracts[g.r.Intn(ci+1)] // itself or a (potential) caller
+	case 3:
+		ben = outsiders[g.r.Intn(len(outsiders))]
+	default:
+		ben = g.pickEOA()
+	}
+	return append(s, Act{Kind: "sd", To: ben})
 }
 
 // selfDestructReach reports whether running code at `a` can reach a SELFDESTRUCT (conservatively).
@@ -327,6 +375,9 @@ func (g *Gen) setup(withContracts bool) {
 	// lower ids; K0..K2 may call higher-indexed contracts and create anything.
 	install := func(i int, maxInit int) {
 		sc := g.script(i, contracts[i], maxInit, false)
+		if i >= 3 && g.r.Chance(1, 2) {
+			sc = g.bomb(i, contracts[i])
+		}
 		for w.scriptCost(sc, 0) > maxScriptCost {
 			sc = sc[:len(sc)-1]
 		}
@@ -601,6 +652,21 @@ func (g *Gen) contractTx(first bool) {
 	default:
 		t := contracts[g.r.Intn(len(contracts))]
 		c.Target = &t
+	}
+	if !first && g.r.Chance(2, 5) {
+		// call again what an earlier transaction of this block called (it may have self-destructed: the
+		// account keeps its code until the block is finalised), this time with value
+		for i := len(w.queue) - 1; i >= 0; i-- {
+			t := strings.Fields(w.queue[i].line)
+			if w.queue[i].isCt && t[6] != "-" {
+				a := parseAddr(t[6])
+				c.Target = &a
+				c.Eth = false
+				c.BadJSON = false
+				c.Value = []string{"1", "0.5", "0.000000000000000001", "2"}[g.r.Intn(4)]
+				break
+			}
+		}
 	}
 	if c.Target != nil && w.authC != nil && *c.Target == *w.authC {
 		if w.authUsed {
